@@ -22,6 +22,10 @@ const (
 	ptStart  = "attach.start"
 	ptBefore = "attach.beforeLimitCheck"
 	ptAfter  = "attach.afterLimitCheck" // between the limit check and the counter increment
+	// only reached by a takeover: the new handler has disconnected the old connection but not yet marked it taken over;
+	// the old connection's handler finishes its teardown (the default schedule policy releases it once everything else
+	// waits) while the new one waits here, i.e. the two teardown / takeover paths overlap
+	ptInherit = "inherit.afterDisconnectOld"
 
 	sigDirected = "C35-limit-exceeded-directed-schedule" // overshoot no larger than the number of stale commits (see c35Exec.observe)
 	sigFree     = "C35-limit-exceeded-free-running"      // overshoot in a free-running burst that had at least one free slot to race for
@@ -94,6 +98,10 @@ func (a c35Attempt) parks() []string {
 		return []string{ptAfter}
 	case "both":
 		return []string{ptBefore, ptAfter}
+	case "inherit":
+		return []string{ptInherit}
+	case "after+inherit":
+		return []string{ptAfter, ptInherit}
 	}
 	return nil
 }
@@ -318,7 +326,7 @@ func (x *c35Exec) stepBurst(i int) (moved bool, ok bool) {
 		return true, true
 	}
 	at := cn.peer.Link.ParkedAt()
-	if at != ptBefore && at != ptAfter {
+	if at != ptBefore && at != ptAfter && at != ptInherit {
 		return false, true
 	}
 	cn.peer.Link.Release(at)
@@ -332,7 +340,7 @@ func (x *c35Exec) stepBurst(i int) (moved bool, ok bool) {
 func (cn *c35Conn) where() string {
 	l := cn.peer.Link
 	switch {
-	case l.ParkedAt() == ptBefore || l.ParkedAt() == ptAfter || l.ParkedAt() == ptStart:
+	case l.ParkedAt() == ptBefore || l.ParkedAt() == ptAfter || l.ParkedAt() == ptStart || l.ParkedAt() == ptInherit:
 		return "waits at " + strings.TrimPrefix(l.ParkedAt(), "attach.")
 	case cn.peer.Connack != nil && cn.peer.Connack.ReasonCode == 0:
 		return "CONNACK 0x00"
@@ -583,11 +591,15 @@ func c35Gen(rt *rapid.T) c35Case {
 	directed := rapid.IntRange(0, 3).Draw(rt, "mode") != 3 // 0 = directed, so that shrinking ends in a deterministic schedule
 	for k := 0; k < nBurst; k++ {
 		a := c35Attempt{Client: nPre + k, Version: rapid.SampledFrom(vers).Draw(rt, "ver"), Clean: rapid.Bool().Draw(rt, "clean")}
-		if nPre+k > 0 && rapid.IntRange(0, 9).Draw(rt, "dup") >= 8 {
+		if nPre+k > 0 && rapid.IntRange(0, 9).Draw(rt, "dup") >= 7 {
 			a.Client = rapid.IntRange(0, nPre+k-1).Draw(rt, "id") // an identifier already in use: takeover
 		}
 		if directed {
 			a.Park = rapid.SampledFrom([]string{"both", "both", "both", "after", "after", "after", "before", ""}).Draw(rt, "park")
+			if a.Client < nPre+k && rapid.Bool().Draw(rt, "overlap-takeover") {
+				// a takeover whose new handler waits between disconnecting the old connection and marking it taken over
+				a.Park = rapid.SampledFrom([]string{"inherit", "after+inherit"}).Draw(rt, "tpark")
+			}
 		}
 		c.Burst = append(c.Burst, a)
 	}
@@ -652,7 +664,7 @@ func TestC35(t *testing.T) {
 	r := evid.New("C35", "Domain: MaximumClients L in 1..4, 0..L connections established beforehand, then a burst so that L+1..L+4 attempts are made in total "+
 		"(MQTT 3.1, 3.1.1 and 5; fresh identifiers and identifiers already connected = takeovers). Directed class (deterministic): each burst handler "+
 		"waits at the verif schedule points attach.beforeLimitCheck and/or attach.afterLimitCheck (between the limit check and the Info.ClientsConnected "+
-		"increment) and a generated schedule advances one handler at a time (rounds / arbitrary interleavings / no overlap at all), with 0-2 established "+
+		"increment) - a takeover also between disconnecting the old connection and marking it taken over (inherit.afterDisconnectOld), so that the old handler's teardown overlaps the takeover - and a generated schedule advances one handler at a time (rounds / arbitrary interleavings / no overlap at all), with 0-2 established "+
 		"connections reset by the harness in between. Free-running class (statistical): all burst handlers leave a common barrier together on all cores, "+
 		"optionally descheduled once between check and increment, optionally while established connections are reset. Oracle, evaluated at quiescence after "+
 		"every step: #{connections that received CONNACK 0x00 and are not closed} <= L; an attempt that is turned away received exactly the CONNACK 0x89 (v5) "+
